@@ -9,6 +9,7 @@ import (
 	"fmt"
 	"sort"
 	"sync"
+	"unsafe"
 
 	"verif/vs"
 )
@@ -29,6 +30,7 @@ func (m *Mutex) Lock() {
 	if vs.Aborting() {
 		return
 	}
+	vs.SetRes(uintptr(unsafe.Pointer(m)))
 	vs.Sched(func() bool { return !m.locked }, "mutex lock")
 	m.locked = true
 }
@@ -40,6 +42,7 @@ func (m *Mutex) TryLock() bool {
 	if vs.Aborting() {
 		return true
 	}
+	vs.SetRes(uintptr(unsafe.Pointer(m)))
 	vs.Sched(nil, "mutex trylock")
 	if m.locked {
 		return false
@@ -55,6 +58,10 @@ func (m *Mutex) Unlock() {
 	}
 	if vs.Aborting() {
 		return
+	}
+	if vs.Fine {
+		vs.SetRes(uintptr(unsafe.Pointer(m)))
+		vs.Sched(nil, "mutex unlock")
 	}
 	if !m.locked {
 		panic("sync: unlock of unlocked mutex")
@@ -78,6 +85,7 @@ func (m *RWMutex) Lock() {
 	if vs.Aborting() {
 		return
 	}
+	vs.SetRes(uintptr(unsafe.Pointer(m)))
 	vs.Sched(func() bool { return !m.writer && m.readers == 0 }, "rwmutex lock")
 	m.writer = true
 }
@@ -89,6 +97,10 @@ func (m *RWMutex) Unlock() {
 	}
 	if vs.Aborting() {
 		return
+	}
+	if vs.Fine {
+		vs.SetRes(uintptr(unsafe.Pointer(m)))
+		vs.Sched(nil, "rwmutex unlock")
 	}
 	if !m.writer {
 		panic("sync: Unlock of unlocked RWMutex")
@@ -104,6 +116,7 @@ func (m *RWMutex) RLock() {
 	if vs.Aborting() {
 		return
 	}
+	vs.SetRes(uintptr(unsafe.Pointer(m)))
 	vs.Sched(func() bool { return !m.writer }, "rwmutex rlock")
 	m.readers++
 }
@@ -115,6 +128,10 @@ func (m *RWMutex) RUnlock() {
 	}
 	if vs.Aborting() {
 		return
+	}
+	if vs.Fine {
+		vs.SetRes(uintptr(unsafe.Pointer(m)))
+		vs.Sched(nil, "rwmutex runlock")
 	}
 	if m.readers <= 0 {
 		panic("sync: RUnlock of unlocked RWMutex")
@@ -144,6 +161,10 @@ func (w *WaitGroup) Add(d int) {
 	if vs.Aborting() {
 		return
 	}
+	if vs.Fine {
+		vs.SetRes(uintptr(unsafe.Pointer(w)))
+		vs.Sched(nil, "waitgroup add")
+	}
 	w.n += d
 	if w.n < 0 {
 		panic("sync: negative WaitGroup counter")
@@ -168,6 +189,7 @@ func (w *WaitGroup) Wait() {
 	}
 	released := false
 	w.waiters = append(w.waiters, &released)
+	vs.SetRes(uintptr(unsafe.Pointer(w)))
 	vs.Sched(func() bool { return released || w.n == 0 }, "waitgroup wait")
 	if !released {
 		for i, r := range w.waiters {
@@ -234,6 +256,7 @@ func (c *Cond) Wait() {
 	woken := false
 	c.waiters = append(c.waiters, &woken)
 	c.L.Unlock()
+	vs.SetRes(uintptr(unsafe.Pointer(c)))
 	vs.Sched(func() bool { return woken }, "cond wait")
 	c.L.Lock()
 }
